@@ -395,7 +395,7 @@ def known_functions():
         with open(path) as fh:
             data = json.load(fh)
         _KNOWN = {k: set(v) for k, v in data['functions'].items()}
-        _KNOWN_EXTRA.update({'digests': data.get('digests', {}), 'attrs': data.get('attrs', {})})
+        _KNOWN_EXTRA.update({'digests': data.get('digests', {}), 'attrs': data.get('attrs', {}), 'constants': data.get('constants', {})})
     return _KNOWN
 
 
@@ -1435,6 +1435,74 @@ def _forward_named_conditions(fn):
                     ast.fix_missing_locations(b)
 
 
+def module_constants(tree):
+    """names bound at module level by a plain assignment"""
+    return sorted({t.id for st in _toplevel(tree.body) if isinstance(st, ast.Assign) for t in st.targets if isinstance(t, ast.Name)})
+
+
+def _is_literal_table(e):
+    if isinstance(e, ast.Constant):
+        return True
+    if isinstance(e, (ast.Tuple, ast.List, ast.Set)):
+        return all(_is_literal_table(x) for x in e.elts)
+    if isinstance(e, ast.Dict):
+        return all(k is not None and _is_literal_table(k) and _is_literal_table(v) for k, v in zip(e.keys, e.values))
+    if isinstance(e, ast.Name):
+        return True
+    if isinstance(e, ast.Attribute):
+        return _is_literal_table(e.value)
+    if isinstance(e, ast.BinOp) and isinstance(e.op, ast.Add):
+        return _is_literal_table(e.left) and _is_literal_table(e.right)
+    return False
+
+
+def _localise_new_constants(tree, known):
+    """a table of literals that was hoisted to module level (a name the known tree does not bind there): every function that reads it gets the
+    binding as its first statement, so that rules which follow a local to its definition find it"""
+    import copy
+    new = {}
+    for st in _toplevel(tree.body):
+        if isinstance(st, ast.Assign) and len(st.targets) == 1 and isinstance(st.targets[0], ast.Name) and st.targets[0].id not in known and \
+                isinstance(st.value, (ast.Tuple, ast.List, ast.Set, ast.Dict)) and _is_literal_table(st.value):
+            new[st.targets[0].id] = st
+    if not new:
+        return
+    stored_elsewhere = set()
+    for x in ast.walk(tree):
+        if isinstance(x, ast.Name) and isinstance(x.ctx, (ast.Store, ast.Del)) and x.id in new and getattr(x, '_parent_assign', None) is None:
+            pass
+    counts = {}
+    for x in ast.walk(tree):
+        if isinstance(x, ast.Name) and isinstance(x.ctx, (ast.Store, ast.Del)) and x.id in new:
+            counts[x.id] = counts.get(x.id, 0) + 1
+        elif isinstance(x, ast.Global):
+            for n_ in x.names:
+                counts[n_] = counts.get(n_, 0) + 2
+    new = {k: v for k, v in new.items() if counts.get(k, 0) == 1}
+    if not new:
+        return
+
+    def funcs(body):
+        for st in body:
+            if isinstance(st, (ast.FunctionDef, ast.AsyncFunctionDef)):
+                yield st
+            elif isinstance(st, ast.ClassDef):
+                yield from funcs(st.body)
+            elif isinstance(st, (ast.If, ast.Try)):
+                for fld in ('body', 'orelse', 'finalbody'):
+                    yield from funcs(getattr(st, fld, []) or [])
+    for fn in funcs(tree.body):
+        used = {x.id for x in ast.walk(fn) if isinstance(x, ast.Name) and isinstance(x.ctx, ast.Load) and x.id in new}
+        params = {a.arg for a in fn.args.posonlyargs + fn.args.args + fn.args.kwonlyargs}
+        k = 1 if fn.body and isinstance(fn.body[0], ast.Expr) and isinstance(fn.body[0].value, ast.Constant) and isinstance(fn.body[0].value.value, str) else 0
+        for nm in sorted(used - params):
+            asg = ast.Assign(targets=[ast.Name(id=nm, ctx=ast.Store())], value=copy.deepcopy(new[nm].value), type_comment=None)
+            ast.copy_location(asg, fn.body[k] if len(fn.body) > k else fn)
+            asg._localised_constant = True
+            fn.body.insert(k, asg)
+    ast.fix_missing_locations(tree)
+
+
 def _record_types(tree):
     """module-level record types whose fields are known: `T = namedtuple('T', [...])` and classes whose __init__ stores each parameter in the
     attribute of the same name -> {name: [field, ...]} in constructor order"""
@@ -1741,6 +1809,9 @@ class Module:
                     if '.' in q:
                         _unstage_fields(node)
                     _forward_named_conditions(node)
+        kc = _KNOWN_EXTRA.get('constants', {}).get(relpath)
+        if kc is not None:
+            _localise_new_constants(raw, set(kc))
         self.tree = ast.fix_missing_locations(_Desugar().visit(raw))
         known = known_functions().get(relpath)
         if known is not None and _InlineNewHelpers(self.tree, known, foreign=foreign, modname=name, is_pkg=relpath.endswith('__init__.py'), known_digests=kd).run():
